@@ -202,6 +202,14 @@ def gen_op(rng, w):
         t = rng.choice(dense)
         tc = w.objs[w.names[t][0]]['M'].tc
         return ['iop', t, rng.choice(['+=', '-=', '*=']), {'k': 'num', 'v': DNS.mkval('i' if tc == 'i' else tc, rng)}]
+    sparse_names = w.sorted_names(sparse=True)
+    if r < 0.76 and sparse_names:
+        # mutation of a sparse owner: every name bound to it must see the change, no copy may
+        t = rng.choice(sparse_names)
+        M = w.objs[w.names[t][0]]['M']
+        if rng.random() < 0.6 and M.m * M.n > 0:
+            return ['sp_set', t, rng.randrange(M.m), rng.randrange(M.n), DNS.mkval(M.tc, rng)]
+        return ['sp_scale', t, rng.choice([2.0, -1.0, 0.5, 3.0])]
     if r < 0.85:
         t = rng.choice(names)
         how = rng.choice(['matrix', 'pos', 'slice', 'copy', 'deepcopy'] + ['pickle:%d' % k for k in range(6)] +
@@ -219,6 +227,15 @@ def gen_op(rng, w):
 
 
 def gen_import(rng, w):
+    op = _gen_import(rng, w)
+    if op[2]['k'] in ('array', 'strided', 'cast2d', 'rows2d') and rng.random() < 0.4:
+        # matrix(buffer, size, tc): conversion and reshaping on import
+        op[2]['args'] = {'tc': rng.choice([None, 'i', 'd', 'z', 'd', 'z']),
+                         'size': rng.choice([None, None, 'col', 'row', 'bad'])}
+    return op
+
+
+def _gen_import(rng, w):
     kind = rng.choice(['array', 'array', 'strided', 'cast2d', 'ctypes', 'ctypes2d', 'unsupported', 'rows2d', 'rows2d'])
     nm = w.fresh()
     if kind == 'rows2d':
@@ -430,6 +447,26 @@ def apply(op, w, stats, rngless=None):
         if any(vv['oid'] == oid and not vv['released'] for vv in w.views.values()):
             w.flags.add('mut_while_exported')
         return
+    if kind in ('sp_set', 'sp_scale'):
+        if op[1] not in w.names:
+            return
+        oid, X = w.names[op[1]]
+        M = w.objs[oid]['M']
+        if not w.objs[oid]['sparse']:
+            return
+        if kind == 'sp_set':
+            i, j, v = op[2], op[3], MDL.conv(DNS.lit(op[4]), M.tc)
+            if i >= M.m or j >= M.n:
+                return
+            X[i, j] = v
+            M.trip = sorted([t for t in M.trip if (t[0], t[1]) != (i, j)] + [(i, j, v)], key=lambda t: (t[1], t[0]))
+        else:
+            c = op[2]
+            X *= c
+            M.trip = [(i, j, v * c) for i, j, v in M.trip]
+        w.names[op[1]] = (oid, X)
+        w.flags.add('sparse_mutation')
+        return
     if kind == 'rebind':
         if op[2] in w.names:
             w.names[op[1]] = w.names[op[2]]
@@ -574,9 +611,27 @@ def apply(op, w, stats, rngless=None):
             src = array.array('f', [float(x) for x in vals])
         else:
             src = array.array('B', vals)
+        args = spec.get('args')
+        kw = {}
+        refuse = False
+        if args and want is not None:
+            cnt = want.m * want.n
+            tcx = args['tc']
+            size = {'col': (cnt, 1), 'row': (1, cnt), 'bad': (cnt + 1, 1)}.get(args['size'])
+            if tcx is not None:
+                kw['tc'] = tcx
+            if size is not None:
+                kw['size'] = size
+            try:
+                want = MDL.recast(want, size or want.size, tcx or want.tc)
+            except MDL.Refuse:
+                refuse = True
         try:
-            Y = matrix(src)
+            Y = matrix(src, **kw)
         except TypeError as ex:
+            if refuse:
+                bump('import_bad_arguments_refused')
+                return
             if want is not None and (spec.get('tcode') == 'q' or k in ('ctypes', 'ctypes2d')):
                 # 'q' is the same 8-byte integer as 'l' on this platform, and ctypes exports '<q' / '<d': same layouts
                 # under other format strings.  Which format strings are accepted is implementation-defined:
@@ -589,6 +644,8 @@ def apply(op, w, stats, rngless=None):
             return
         except Exception as ex:     # noqa
             raise Mismatch('undocumented-exception', 'matrix(%s buffer) raised %s(%s)' % (k, type(ex).__name__, ex), op='import', src=k)
+        if refuse:
+            raise Mismatch('import-accepted-bad-arguments', 'matrix(%s buffer, %r) was accepted as %s %s' % (k, kw, Y.typecode, Y.size), op='import', src=k)
         if want is None:
             raise Mismatch('import-accepted-unsupported', 'matrix(%s) of an unsupported buffer format was accepted as %s %s' %
                            (k, Y.typecode, Y.size), op='import', src=k)
